@@ -53,6 +53,7 @@ def run(ctx):
             ctx.count(l.split()[0])
     ctx.differential(ENGINE, cases, nontrivial=nt, oracle=oracle)
 
-LEVEL_TEXT = "placeholder"; LEVEL_NOTE = "placeholder"
 TECHNIQUE = "Lean 4 theorems on the ownership filter of add_reader_change + differential correspondence"
-CLAIMED = False
+LEVEL_TEXT = 'Kernel-checked Lean theorems for all states: with EXCLUSIVE ownership a change from a matched writer that is not the owner and not strictly stronger is never stored and does not change ownership (C24_non_owner_not_stored, ties keep the first owner), unmatched writers are dropped, a strictly stronger writer takes over (C24_stronger_takes_over), SHARED never filters. Instance-state changes by non-owners are a recorded finding (D29); hand-over on deadline miss / writer deletion lives outside the modelled entity and is only exercised by the differential ops pub/unpub.'
+LEVEL_NOTE = 'Trusted: Lean kernel (axioms audited: propext, Classical.choice, Quot.sound at most); the hand-written model Model/ReaderHist.lean of data_reader_entity.rs / user_defined_data_reader.rs (handles as Nat, times as total ns, Vec as List); the hist harness that drives the real DataReaderEntity<()> / UserDefinedDataReader through the cfg(dust_dds_verif) re-export and prints canonical lines; the Python oracle. The differential run validates the model on sampled op sequences only; the theorems are about the model.'
+DESIGN_REF = 'DESIGN.md section 5 C24'
